@@ -366,8 +366,9 @@ def switch_strategy():
         "raw": st.one_of(st.none(), st.none(), st.none(), st.none(), st.none(), st.none(),
                          st.fixed_dictionaries({"optional": st.sampled_from(["absent", True, False]),
                                                 "enabled": st.sampled_from(["absent", True, False])})),
-        "consistent": st.sampled_from([True] * 9 + [False]),
+        "consistent": st.sampled_from([True] * 5 + [False]),
         "keep": st.booleans(),  # a disabled parameter keeps a real stored value (True) or an empty one
+        "en_explicit": st.sampled_from([False, False, True]),
     })
 
 
@@ -438,9 +439,30 @@ def toplevel_strategy():
     })
 
 
+def _dependency_session(program):
+    """Constructive shape: form 0 is a disabled optional parameter (or, for a boolean, a driver that holds False),
+    form 1 depends on it and spells out its own `enabled` member; the session assigns None to the dependent."""
+    if not program.pop("dep_session", False) or len(program["forms"]) < 2:
+        return program
+    forms = list(program["forms"])
+    base = {"grp": None, "gopt": None, "dep": None, "dtype": None, "raw": None, "keep": True}
+    forms[0] = {**forms[0], "sw": {**forms[0]["sw"], **base, "opt": "disabled", "en_explicit": False}}
+    if forms[1]["kind"] not in ("integer", "float", "string"):
+        forms[1] = {**forms[1], "kind": "float", "v": enc_float(2.5), "vmin": None, "vmax": None, "precision": 2,
+                    "line_edit": False}
+    forms[1] = {**forms[1], "sw": {**forms[1]["sw"], **base, "opt": None, "dep": 0, "en_explicit": True,
+                                   "dtype": forms[1]["sw"].get("dtype") if forms[1]["sw"].get("dtype") != "disabled" else None}}
+    edits = [{"form": 0, "how": "none"}] + list(program["edits"])[:2]
+    return {**program, "forms": forms, "edits": edits}
+
+
 def roundtrip_program_strategy(tier: str):
-    max_forms = 10
+    return _roundtrip_programs().map(_dependency_session)
+
+
+def _roundtrip_programs():
     return st.fixed_dictionaries({
+        "dep_session": st.sampled_from([False] * 7 + [True]),
         "ws": ws_spec_strategy(),
         "geoh5": st.sampled_from(["path", "path", "pathobj", "open_rw", "open_rw", "open_r"]),
         "top": toplevel_strategy(),
@@ -452,7 +474,7 @@ def roundtrip_program_strategy(tier: str):
         "allow_known": st.sampled_from([False] * 9 + [True]),
         # a user session on the file that was read back: values assigned through set_data_value, then written again
         "edits": st.lists(st.fixed_dictionaries({"form": st.integers(0, 9),
-                                                 "how": st.sampled_from(["stored", "stored", "fresh", "invalid"])}), max_size=3),
+                                                 "how": st.sampled_from(["stored", "stored", "fresh", "invalid", "none"])}), max_size=3),
     })
 
 
@@ -811,6 +833,12 @@ def apply_switches(specs, names, forms, built, allow_known):
         forms[names[i]]["dependency"] = names[driver]
         if sw.get("dtype") is not None:
             forms[names[i]]["dependencyType"] = sw["dtype"]
+    # `enabled` spelled out on forms without a checkbox of their own (Geoscience ANALYST exports it for every form)
+    for i, spec in enumerate(specs):
+        sw = spec.get("sw") or {}
+        if sw.get("en_explicit") and "enabled" not in forms[names[i]] and "groupOptional" not in forms[names[i]]:
+            forms[names[i]]["enabled"] = True
+
     # `enabled` as Geoscience ANALYST exports it: false for everything greyed out from above
     def greyed_by(form):
         group_off = False
@@ -878,6 +906,8 @@ def apply_switches(specs, names, forms, built, allow_known):
         greyed = greyed_by(form)
         if greyed and form.get("enabled", True) is not False:
             meta["unspecified"] = True  # enabled although its group / dependency disables it
+            if "group" not in form:
+                meta["unspecified_why"] = "enabled-while-switched-off"
         own_checkbox = form.get("optional", False) is True or form.get("groupOptional") is True
         if form.get("enabled", True) is False and not own_checkbox and not greyed:
             meta["unspecified"] = True  # disabled without any switch that could disable it
@@ -1095,11 +1125,59 @@ def run_edit_session(program, built, ifile, form_names, res, pid):
         if isinstance(stored, str) and (stored == "" or classify_string(stored) != "str" or classify_string(stored + "x") != "str"):
             continue
         cands.append(name)
-    if not cands:
+    # forms switched off from above (a dependency on a parameter that does not activate them; no group): the
+    # documentation asks no value of them, so None is an in-domain edit whatever members the form itself carries -
+    # also when the form spells out `enabled: true` although it is switched off from above (a combination the static
+    # round trip does not judge; here only "what the session holds before the write is what the reader gets" is
+    # asked). (None on an enabled optional parameter is refused by the library, as params.rst says.)
+    def none_candidates():
+        forms_now = {k: v for k, v in ifile.ui_json.items() if isinstance(v, dict)}
+        found = []
+        for name in form_names:
+            meta = built.meta[name]
+            form = ifile.ui_json.get(name)
+            if (not isinstance(form, dict) or meta["kind"] not in EDITABLE_KINDS or meta["lookalike"]
+                    or "group" in form or "isValue" in form):
+                continue
+            if meta["unspecified"] and meta.get("unspecified_why") != "enabled-while-switched-off":
+                continue
+            if "dependency" in form:
+                driver = forms_now.get(form["dependency"])
+                if name in depended or not isinstance(driver, dict) or "dependency" in driver or "group" in driver:
+                    continue
+                if built.meta.get(form["dependency"], {}).get("unspecified"):
+                    continue
+                if docs_requires_value(form, forms_now) is False:
+                    found.append(name)
+        return found
+
+    none_cands = none_candidates()
+    if not cands and not none_cands:
         return
     assigned = {}
     refused_any = False
     for edit in program["edits"]:
+        if edit["how"] == "none":
+            none_now = none_candidates()
+            if not none_now:
+                continue
+            name = none_now[edit["form"] % len(none_now)]
+            form = ifile.ui_json[name]
+            state = ("dependency-off" if "dependency" in form else "own-checkbox") + (
+                ":enabled" if form.get("enabled") is True else ":disabled" if form.get("enabled") is False else "") + (
+                ":optional" if form.get("optional") else "") + (":driver" if name in depended else "")
+            try:
+                ifile.set_data_value(name, None)
+            except Exception as exc:
+                res.fail(tagged(built, name, f"{pid}/none-refused-where-no-value-is-required/{built.meta[name]['kind']}/{state}/{type(exc).__name__}"),
+                         f"set_data_value({name!r}, None) on a parameter of which no value is required ({state}): "
+                         f"{type(exc).__name__}: {str(exc)[:200]}")
+                return
+            assigned[name] = (None, "none", state)
+            res.label(f"edit:none:{state}")
+            continue
+        if not cands:
+            continue
         name = cands[edit["form"] % len(cands)]
         form = ifile.ui_json[name]
         stored = form["value"]
